@@ -143,6 +143,7 @@ CHECKS = {
         legs=[dict(name="closed-" + k, run="^TestClosed$/^%s$" % k, quick=60, thorough=600, shards=1) for k in ["mem", "kvplain", "mount", "submem", "cache", "tar", "osfs"]] + [
             dict(name="siblings", run="^TestSiblings$", quick=300, thorough=3000, shards=2),
             dict(name="resurrect", run="^TestResurrect$", quick=200, thorough=2000, shards=2),
+            dict(name="resurrectdir", run="^TestResurrectDir$", quick=200, thorough=2000, shards=2),
         ],
     ),
     "C19": dict(
@@ -246,6 +247,7 @@ CHECKS = {
             dict(name="pubsubburst", run="^TestPubsubBurst$", quick=30, thorough=300, shards=4),
             dict(name="bufferpool", run="^TestBufferPool$", quick=100, thorough=1000, shards=2),
             dict(name="neighbours", run="^TestNeighbours$", quick=60, thorough=600, shards=2),
+            dict(name="manyfail", run="^TestManyFail$", quick=40, thorough=400, shards=2),
         ],
     ),
     "C15": dict(
@@ -291,7 +293,7 @@ CHECKS = {
               "kinds: silently do nothing, apply twice, drop the entry, leave the source behind, flipped permission bits, wrong size, wrong name, wrong bytes, wrong n, early EOF, wrong error kind, wrong error path, ignore O_TRUNC, drop/duplicate/mis-kind a directory entry; triggers: always, k-th call (1..3), names containing foo / bar. "
               "Each evaluation re-executes the compiled test binary running fstest.FS + fstest.File against the deviant. The wrapper also RECORDS every call the suite makes and what it got back (error class and paths, n, bytes, FileInfo, entries), per scenario; the same recorder runs on the reference. "
               "A deviant is non-trivial iff some scenario's recorded results differ from the reference's (as multisets; scenarios whose goroutines / parallel sub-tests share one FS only count for triggers that do not depend on a call count); then the suite must exit != 0. "
-              "triggers also include ARGUMENT CLASSES per operation (OpenFile by access mode and by O_CREATE/O_EXCL/O_TRUNC/O_APPEND; Truncate negative/zero/shrink/grow; Seek by origin and negative offset; ReadAt/WriteAt negative/zero/past-end offset; ReadDir n<=0 / n>0; empty buffers): such a deviant misbehaves only for calls in the class. grammar leg (both tiers, it takes seconds): the whole finite grammar (578 deviants), enumerated completely. Ratchet: every deviant the suite rejected at the pinned commit (harness/c20/expected_killed.txt, 300, identical in three runs at different GOMAXPROCS) must still be rejected; one that no scenario observes any more is reported as C20:unexercised (an edit dropped the scenario or made sub-tests share a table row). reference leg: the suite passes on mem.FS and os.FS at -test.parallel/GOMAXPROCS in {1,16} x {1,16}, repeatedly, with identical recorded behaviour. "
+              "triggers also include ARGUMENT CLASSES per operation (OpenFile by access mode and by O_CREATE/O_EXCL/O_TRUNC/O_APPEND; Truncate negative/zero/shrink/grow; Seek by origin and negative offset; ReadAt/WriteAt negative/zero/past-end offset; ReadDir n<=0 / n>0; empty buffers): such a deviant misbehaves only for calls in the class. grammar leg (both tiers, it takes seconds): the whole finite grammar (608 deviants), enumerated completely. Ratchet: every deviant the suite rejected at the pinned commit (harness/c20/expected_killed.txt, 319, identical in three runs at different GOMAXPROCS) must still be rejected; one that no scenario observes any more is reported as C20:unexercised (an edit dropped the scenario or made sub-tests share a table row). reference leg: the suite passes on mem.FS and os.FS at -test.parallel/GOMAXPROCS in {1,16} x {1,16}, repeatedly, with identical recorded behaviour. "
               "non-trivial & distinct = deviants whose recorded behaviour differs"),
         assumptions=["substituting ErrNotImplemented is not a deviation (the suite skips what a file system declares unsupported)", "a deviant whose effect is never observed through the calls the suite makes is counted as trivial, not as a survivor"],
         legs=[
